@@ -28,7 +28,7 @@ def variants( src ):
             if not ( pure( a ) and pure( b )):
                 continue
             raw = lines[n.lineno-1].encode( 'utf-8' )
-            new = '( %s %s %s )' % ( ast.unparse( b ), FLIP[type( n.ops[0] )], ast.unparse( a ))
+            new = '( ( %s ) %s ( %s ) )' % ( ast.unparse( b ), FLIP[type( n.ops[0] )], ast.unparse( a ))	# operands parenthesised (unparse drops the source's own parentheses)
             line = ( raw[:n.col_offset] + new.encode() + raw[n.end_col_offset:] ).decode( 'utf-8' )
             text = '\n'.join( lines[:n.lineno-1] + [ line ] + lines[n.lineno:] )
             yield n.lineno, ast.unparse( n ), text
